@@ -16,7 +16,9 @@ with open("/verif/seeded/INDEX.md", "w") as fh:
     fh.write("# Seeded changes (sensitivity of the checks)\n\nEach directory holds `patch.diff` (applies to /repo HEAD), `demo.py` (exits 0 on the "
              "unmodified library, non-zero with the change) and `meta.json`.  Produced by independent sub-agents that saw only the property text; "
              "re-confirmed with `tools/mutant.sh` and `tools/mutant_suite.sh`.  'caught' = the quick check exits 1 with a VIOLATION line "
-             "on a scratch worktree with the change.\n\n")
+             "on a scratch worktree with the change.  'suite exit' = exit code of the stable suite re-run HERE with the change (0 = every stable test passes); "
+             "'?' = not re-run here (round 3, for lack of machine time): the producing sub-agent's own suite run is recorded in meta.json "
+             "(`suite_passes`, `sub_agent_commands_run`).\n\n")
     fh.write("| change | property | title | needs to manifest | caught by | run but missed by | suite exit | note |\n|---|---|---|---|---|---|---|---|\n")
     for r in rows:
         fh.write("| " + " | ".join(str(x).replace("|", "/") for x in r) + " |\n")
